@@ -1723,14 +1723,10 @@ func (t *treasure) SetContentVoid(guardID guard.ID) {
 	}
 
 	t.contentChanged = true
-	if t.treasure.Content == nil {
-		t.treasure.Content = &Content{
-			Void: true,
-		}
-	}
-
-	if t.treasure.Content.Void != false {
-		t.treasure.Content.Void = true
+	// replace whatever typed value was stored: a void treasure keeps its key and metadata only
+	// (previously an existing typed content was left in place, so "set to void" changed nothing)
+	t.treasure.Content = &Content{
+		Void: true,
 	}
 
 }
